@@ -36,7 +36,7 @@ CHECKS = {
          "485 values (lists of 0/1/2/253/256/257/300 entries, multi-byte text) over all 37 payload types (product of per-field boundary domains): exact byte consumption, identical re-encoding, structural equality, type tables; every strict prefix fails with an error; all ordered pairs/triples of representatives decode as a stream. 2 (3) goroutines serialising different messages to their own connections, all interleavings: each connection receives exactly its message.",
          "Dependency-typed fields compared through their own encoding.", "DESIGN.md §4 C15"),
  "C16": (MC, "explicit-state BFS over call/response histories of the real RemoteClient.Run + stateless schedule exploration (one deviation at every point, all alternatives of multi-ready selects) + bounded-exhaustive outputs lookups",
-         "All histories up to depth 4 (6) of concurrent calls of mixed kinds, server answers in any order (proper/reject/none), unsolicited responses, clock past the request time-out; every call gets its own key's response, the server's reject, or a time-out; also from the start states "fee-quotes / GetTx call given up at the message time-out before the handshake completed, its request written afterwards". With an immediately answering server: stall/pre-emption at every scheduling point and every select alternative. All outpoint lists <= 3 over 2 txids x {0,1,out of range}.",
+         "All histories up to depth 4 (6) of concurrent calls of mixed kinds, server answers in any order (proper/reject/none), unsolicited responses, clock past the request time-out; every call gets its own key's response, the server's reject, or a time-out; also from the start states 'fee-quotes / GetTx call given up at the message time-out before the handshake completed, its request written afterwards'. With an immediately answering server: stall/pre-emption at every scheduling point and every select alternative. All outpoint lists <= 3 over 2 txids x {0,1,out of range}.",
          "Scripted server over the virtual network with the real codec and real signatures; RemoteClient, the threads package, channels, selects, timers and atomics run on the controlled scheduler.", "DESIGN.md §4 C16"),
  "C17": (MC, "explicit-state BFS over server notification streams / drops / reconnects + stateless schedule exploration with an immediately replaying server",
          "All streams up to depth 5 (7) of Tx/TxUpdate with next/repeated/skipped/old/far ids, Headers, InSync, drops and reconnects (Ready(NextMessageID()) from the handler; also a persisted first id 57, a replaying server, and a slow application that resumes from its own last handled id): consecutive ids from the declared id, NextMessageID = last+1, handlers identical, server order, nothing missed. Stall / pre-emption / drop at every scheduling point of two baselines.",
